@@ -48,6 +48,9 @@ type world struct {
 	st     *emit.Stats
 	log    []string
 	feeCol sdk.AccAddress
+	// ghost: every epoch the harness has seen appear in the store, in creation order, as it was
+	// stored when it appeared (kept by the harness only; never read back from the application)
+	created []litypes.Epoch
 }
 
 func newWorld(numVals, numAccts int, st *emit.Stats) *world {
@@ -837,14 +840,41 @@ func (w *world) blockCase(dt time.Duration, tag string) caseOut {
 		info["validators"] = g.valsH
 		info["votes"] = g.ballotsH
 	}
+	// ghost list of created epochs: anything stored with an id above the newest one seen so far
+	maxSeen := uint64(0)
+	if n := len(w.created); n > 0 {
+		maxSeen = w.created[n-1].Id
+	}
+	for _, e := range es2 {
+		if e.Id > maxSeen {
+			w.created = append(w.created, e)
+			maxSeen = e.Id
+		}
+	}
+	var crT, crH []string
+	from := len(w.created) - 4
+	if from < 0 {
+		from = 0
+	}
+	for _, e := range w.created[from:] {
+		crT = append(crT, epochTerm(e))
+		crH = append(crH, fmt.Sprint(e.Id))
+	}
+	info["created_epochs_so_far(last 4)"] = crH
 	c := caseOut{kind: "block", outcome: outcome, info: info}
-	c.term = fmt.Sprintf("CBlock {| kc_pre := %s; kc_balance := %s; kc_status := %s; kc_height := %d; kc_epoch_blocks := %d; kc_vals := %s; kc_ballots := %s; kc_bonded := %s; kc_gh_voters := %s; kc_gh_vals := %s; kc_obs := %s |}",
-		preT, emit.Z(balance.BigInt()), statusT, height, params.EpochBlocks, g.vals, g.ballots, emit.Z(g.bonded.BigInt()), g.ghVoters, g.ghVals, obs)
+	c.term = fmt.Sprintf("CBlock {| kc_pre := %s; kc_balance := %s; kc_status := %s; kc_height := %d; kc_epoch_blocks := %d; kc_vals := %s; kc_ballots := %s; kc_bonded := %s; kc_gh_voters := %s; kc_gh_vals := %s; kc_created := %s; kc_obs := %s |}",
+		preT, emit.Z(balance.BigInt()), statusT, height, params.EpochBlocks, g.vals, g.ballots, emit.Z(g.bonded.BigInt()), g.ghVoters, g.ghVals, emit.List(crT), obs)
 	info["ghost_stakes"] = g.ghH
 	if g.emptyOverrides {
 		w.st.Count("block:empty-vote-overrides-voting-validator")
 	}
 	created := len(es2) > 0 && (len(es) == 0 || es2[len(es2)-1].Id != es[len(es)-1].Id)
+	if !created && last != nil && last.EndBlock <= height {
+		w.st.Count("block:boundary-with-empty-tally")
+		if len(es) == 2 {
+			w.st.Count("block:boundary-with-empty-tally-two-epochs-stored")
+		}
+	}
 	if created {
 		w.st.Count("block:epoch-created")
 		if len(es) == 2 {
@@ -1022,6 +1052,150 @@ func corpus(cf *emit.CasesFile, st *emit.Stats) error {
 	return nil
 }
 
+// boundaryHistory: a block history over many epoch boundaries in which the tally is non-empty,
+// then empty for emptyLen consecutive boundaries, then non-empty again. mech selects how it
+// becomes empty: 0 votes replaced by empty votes, 1 all voters' stake undelegated, 2 the voters'
+// validators jailed (unbonded), 3 votes with weight 0 only (the tally is then NOT empty: gauges
+// with count 0). Every block is a CBlock case.
+func boundaryHistory(cf *emit.CasesFile, st *emit.Stats, mech, emptyLen int, eb int64, fund int64, tag string) error {
+	w := newWorld(3, 4, st)
+	defer w.h.Close()
+	h := w.h
+	k := h.App.LiquidityincentiveKeeper
+	a := h.Accts[0].Addr
+	for _, pq := range [][2]string{{"urise", "uusdc"}, {"uatom", "uusdc"}} {
+		id, err := w.createPool(pq[0], pq[1])
+		if err != nil {
+			return err
+		}
+		if _, err := w.createPosition(a, id, -10, 10, pq[0], pq[1], 1_000_000); err != nil {
+			return err
+		}
+	}
+	p, err := k.Params.Get(h.Ctx())
+	if err != nil {
+		return err
+	}
+	p.EpochBlocks = eb
+	if err := k.Params.Set(h.Ctx(), p); err != nil {
+		return err
+	}
+	vals := w.allVals()
+	v1, v2 := h.Accts[1].Addr, h.Accts[2].Addr
+	stake := []sdkmath.Int{sdkmath.NewInt(3_000_000), sdkmath.NewInt(1_234_567)}
+	if err := w.delegate(v1, vals[0].OperatorAddress, stake[0]); err != nil {
+		return err
+	}
+	if err := w.delegate(v2, vals[1].OperatorAddress, stake[1]); err != nil {
+		return err
+	}
+	vote := func(addr sdk.AccAddress, ws []weightSpec) error {
+		c := w.voteCase(addr.String(), addr, ws, tag)
+		w.record(cf, c)
+		if c.outcome != "ok" {
+			return fmt.Errorf("vote rejected: %v", c.info["err"])
+		}
+		return nil
+	}
+	full := func() error {
+		if err := vote(v1, []weightSpec{{0, "0.7"}, {1, "0.3"}}); err != nil {
+			return err
+		}
+		return vote(v2, []weightSpec{{1, "0.5"}})
+	}
+	blocks := func(n int) error {
+		for i := 0; i < n; i++ {
+			if fund > 0 {
+				ctx := h.Ctx()
+				w.setFeeCollector(ctx, h.Bal(ctx, w.feeCol, bond).Add(sdkmath.NewInt(fund+int64(i))))
+			}
+			c := w.blockCase(time.Second, tag)
+			w.record(cf, c)
+			if c.outcome != "ok" {
+				return fmt.Errorf("block failed: %v", c.info["block_error"])
+			}
+		}
+		return nil
+	}
+	if err := full(); err != nil {
+		return err
+	}
+	// three boundaries with votes: two epochs stored, one already pruned
+	if err := blocks(int(3*eb) + 1); err != nil {
+		return err
+	}
+	// make the tally empty
+	switch mech {
+	case 0:
+		if err := vote(v1, nil); err != nil {
+			return err
+		}
+		if err := vote(v2, nil); err != nil {
+			return err
+		}
+	case 1:
+		if err := w.undelegate(v1, vals[0].OperatorAddress, stake[0]); err != nil {
+			return err
+		}
+		if err := w.undelegate(v2, vals[1].OperatorAddress, stake[1]); err != nil {
+			return err
+		}
+	case 2:
+		for _, v := range w.allVals()[:2] {
+			if err := w.jail(v, false); err != nil {
+				return err
+			}
+		}
+	case 3:
+		if err := vote(v1, []weightSpec{{0, "0"}}); err != nil {
+			return err
+		}
+		if err := vote(v2, []weightSpec{{1, "0.000000000000000000"}, {0, "0"}}); err != nil {
+			return err
+		}
+	}
+	if err := blocks(emptyLen*int(eb) + 1); err != nil {
+		return err
+	}
+	// and non-empty again
+	switch mech {
+	case 0, 3:
+		if err := full(); err != nil {
+			return err
+		}
+	case 1:
+		if err := w.delegate(v1, vals[0].OperatorAddress, stake[0].AddRaw(17)); err != nil {
+			return err
+		}
+		if err := w.delegate(v2, vals[1].OperatorAddress, stake[1]); err != nil {
+			return err
+		}
+	case 2:
+		for _, v := range w.allVals()[:2] {
+			if err := w.jail(v, true); err != nil {
+				return err
+			}
+		}
+	}
+	if err := blocks(int(3*eb) + 1); err != nil {
+		return err
+	}
+	// a second, single empty boundary followed by recovery (votes emptied whatever the mechanism was)
+	if err := vote(v1, nil); err != nil {
+		return err
+	}
+	if err := vote(v2, nil); err != nil {
+		return err
+	}
+	if err := blocks(int(eb) + 1); err != nil {
+		return err
+	}
+	if err := full(); err != nil {
+		return err
+	}
+	return blocks(int(2*eb) + 1)
+}
+
 // Run generates n cases (plus the fixed corpus) and writes cases + stats into outDir.
 func Run(seed int64, n int, outDir string) error {
 	r := emit.NewRand(seed)
@@ -1029,6 +1203,19 @@ func Run(seed int64, n int, outDir string) error {
 	cf := &emit.CasesFile{Import: "Stake.C17Check", Runner: "run", Type: "c17_case"}
 	if err := corpus(cf, st); err != nil {
 		return fmt.Errorf("corpus: %w", err)
+	}
+	// corpus: one boundary history per way of emptying the tally
+	for mech := 0; mech < 4; mech++ {
+		if err := boundaryHistory(cf, st, mech, 1+mech%2, 1, 1000, fmt.Sprintf("corpus:boundary-history/mech%d", mech)); err != nil {
+			return fmt.Errorf("boundary history %d: %w", mech, err)
+		}
+	}
+	// generated: mechanism, number of consecutive empty boundaries, epoch length and emission drawn from the seed
+	for i := 0; i < 1+n/200; i++ {
+		mech, el, eb := r.Intn(4), 1+r.Intn(3), int64(emit.Pick(r, 1, 1, 2, 3))
+		if err := boundaryHistory(cf, st, mech, el, eb, int64(r.Intn(5000)), fmt.Sprintf("gen:boundary-history/mech%d/empty%d/eb%d", mech, el, eb)); err != nil {
+			return fmt.Errorf("generated boundary history: %w", err)
+		}
 	}
 	w := newWorld(3, 7, st)
 	defer w.h.Close()
